@@ -55,6 +55,20 @@ import (
 type recMgr struct {
 	*nginx.FakeManager
 	files map[string][]byte
+	// what NGINX RUNS: the files as they were at the last Reload (a configuration that was written but not
+	// reloaded is not in effect)
+	running map[string][]byte
+	reloads int
+}
+
+// Reload snapshots the files: from now on NGINX runs them.
+func (m *recMgr) Reload(_ bool) error {
+	m.reloads++
+	m.running = map[string][]byte{}
+	for k, v := range m.files {
+		m.running[k] = v
+	}
+	return nil
 }
 
 func newRecMgr() *recMgr {
@@ -219,6 +233,8 @@ type Obs struct {
 	Spiffe   bool       `json:"spiffe,omitempty"`   // template data says SpiffeCerts
 	Stale    bool       `json:"stale,omitempty"`    // history cases: the live file differs from a fresh generation
 	PreOpen  bool       `json:"pre_open,omitempty"` // history cases: before the event nothing failed closed
+	Reloads  int        `json:"reloads,omitempty"`  // history cases: reloads during the event(s)
+	Unloaded bool       `json:"unloaded,omitempty"` // history cases: the file on disk was not loaded by a reload
 	Queued   []int      `json:"queued,omitempty"`   // history cases: tasks queued by the real handler per event
 	File     string     `json:"file,omitempty"`
 	Panic    string     `json:"panic,omitempty"`
@@ -245,6 +261,11 @@ type EventIn struct {
 	NS   string `json:"ns"`
 	Name string `json:"name"`
 	Op   string `json:"op"` // delete | invalid | empty | class | retype:<type>
+	// Batch > 0: the event reaches the worker inside a BATCH: Batch Secrets nobody uses (noise-<i>, valid TLS)
+	// are created in the same burst, all tasks are queued before the worker runs; At is the position of the
+	// event in the burst (0 = first).  The real sync then holds reloads back and reloads once at the end.
+	Batch int `json:"batch,omitempty"`
+	At    int `json:"at,omitempty"`
 }
 
 func ptr[T any](v T) *T { return &v }
@@ -1614,6 +1635,15 @@ func histCases(root *vh.Rng) []Case {
 							EventIn{Dep: "secret", NS: ns, Name: fmt.Sprintf("p-bad-s%d", s), Op: op})
 					}
 				}
+				// the same Secret events inside a batch of secret tasks for Secrets nobody uses directly
+				for s := 1; s <= nslots(k); s++ {
+					for _, op := range []string{"delete", "invalid"} {
+						for _, at := range []int{0, 2} {
+							add("vs", Gen{Kind: k, Scope: sc, Mode: fmt.Sprintf("s%d-%s", s, op), Pos: fmt.Sprintf("history-batch-at%d", at)}, init,
+								EventIn{Dep: "secret", NS: ns, Name: fmt.Sprintf("p-bad-s%d", s), Op: op, Batch: 2, At: at})
+						}
+					}
+				}
 				if k == "waf" {
 					for _, op := range []string{"delete", "invalid"} {
 						add("vs", Gen{Kind: k, Scope: sc, Mode: "appol-" + op, Pos: "history"}, init, EventIn{Dep: "appol", NS: ns, Name: "p-bad-ap", Op: op})
@@ -1634,6 +1664,11 @@ func histCases(root *vh.Rng) []Case {
 			pos := "history"
 			if internal {
 				pos = "history-internal-route"
+			}
+			for _, op := range []string{"delete", "invalid"} {
+				add("vs", Gen{Kind: "tls", Scope: "server", Mode: op, Pos: pos + "-batch"}, vstlsWorld("ok", plus, internal), EventIn{Dep: "secret", NS: ns, Name: "tls-x", Op: op, Batch: 2, At: 1})
+				wd, _ := ingWorld(ingGen{Plus: plus, TLSMode: "ok", Internal: internal})
+				add("ing", Gen{Kind: "tls", Scope: "regular", Mode: op, Pos: pos + "-batch"}, wd, EventIn{Dep: "secret", NS: ns, Name: "tls-x", Op: op, Batch: 2, At: 1})
 			}
 			for _, op := range secretOps("tls") {
 				add("vs", Gen{Kind: "tls", Scope: "server", Mode: op, Pos: pos}, vstlsWorld("ok", plus, internal), EventIn{Dep: "secret", NS: ns, Name: "tls-x", Op: op})
@@ -1763,7 +1798,7 @@ func runHist(c *Case) (obs Obs) {
 		}
 		file, host = init.Ing.NS+"-"+init.Ing.Name, init.Ing.Host
 	}
-	pre := string(mgr.files[file])
+	pre := string(mgr.running[file])
 	obs.PreOpen = pre != "" && !strings.Contains(pre, "return 500;") && !strings.Contains(pre, "ssl_reject_handshake")
 	// 2. the event, through the real handler and the real sync function
 	e := *c.Event
@@ -1792,7 +1827,30 @@ func runHist(c *Case) (obs Obs) {
 		}
 		return nil
 	}
+	reloadsBefore := mgr.reloads
 	switch {
+	case e.Batch > 0:
+		// a burst: every event is delivered to the real handlers first, then the worker drains the queue
+		deliver := func(kind, k string, obj interface{}) {
+			if err := ctl.Deliver(kind, k, obj); err != nil && obs.Error == "" {
+				obs.Error = "deliver " + kind + " " + k + ": " + err.Error()
+			}
+		}
+		for i := 0; i <= e.Batch; i++ {
+			if i == e.At || (i == e.Batch && e.At > e.Batch) {
+				if e.Op == "delete" {
+					deliver(e.Dep, key, nil)
+				} else {
+					deliver(e.Dep, key, build())
+				}
+			}
+			if i < e.Batch {
+				n := SecIn{NS: ns, Name: fmt.Sprintf("noise-%d", i), Type: "tls"}
+				final.Secrets = append(final.Secrets, n)
+				deliver("secret", n.NS+"/"+n.Name, buildSecret(n))
+			}
+		}
+		obs.Queued = append(obs.Queued, ctl.Drain())
 	case e.Op == "delete":
 		obs.Queued = append(obs.Queued, apply(e.Dep, key, nil))
 	case strings.HasPrefix(e.Op, "retype:"):
@@ -1818,7 +1876,10 @@ func runHist(c *Case) (obs Obs) {
 	if obs.Error != "" {
 		return obs
 	}
-	live := mgr.files[file]
+	// judged on what NGINX runs after the queue drained, not on what is on disk
+	live := mgr.running[file]
+	obs.Reloads = mgr.reloads - reloadsBefore
+	obs.Unloaded = !bytes.Equal(mgr.running[file], mgr.files[file])
 	if final.VS != nil {
 		vsEx := ctl.CurrentVS(host)
 		if vsEx == nil {
